@@ -55,13 +55,15 @@ Theorem C03_cascade_grant : forall s gi g k t,
   exists t', tget k (revoke_grant_at gi s) = Some t' /\ t_revoked t' = true.
 Proof. exact revoke_grant_cascade. Qed.
 Print Assumptions C03_cascade_grant.
+(* (live_branch: the grants the client-session node still knows, i.e. same user, same client, not removed from the
+   database; the tokens of removed grants are covered by C03_remove_session_final) *)
 Theorem C03_cascade_client_session : forall s g k t h,
-  tget k s = Some t -> nth_error (grants s) (t_grant t) = Some h -> same_branch g h = true ->
+  tget k s = Some t -> nth_error (grants s) (t_grant t) = Some h -> live_branch g h = true ->
   exists t', tget k (revoke_branch g s) = Some t' /\ t_revoked t' = true.
 Proof. exact revoke_client_cascade. Qed.
 Print Assumptions C03_cascade_client_session.
 Theorem C03_cascade_token_recursive : forall s id g t k tk,
-  find_tok id s = Some (g, t) -> tget k s = Some tk -> t_grant tk = t_grant t ->
+  find_tok id s = Some (g, t) -> g_removed g = false -> tget k s = Some tk -> t_grant tk = t_grant t ->
   (k = id \/ derived_from (S (length (toks s))) (upd_nth id revoke_t (toks s)) tk id = true) ->
   exists tk', tget k (fst (do_api_revoke s id true)) = Some tk' /\ t_revoked tk' = true.
 Proof. exact api_revoke_recursive. Qed.
@@ -86,6 +88,81 @@ Theorem C03_isolation_revocation_endpoint : forall c s cl id k tk,
 Proof. exact revoke_ep_isolation. Qed.
 Print Assumptions C03_isolation_revocation_endpoint.
 
+(* REMOVE-SESSION (SessionManager.remove_session on grant gi): whatever operations follow, no token of that grant is
+   honoured by any endpoint again - no user info, never reported active, refused by both parse steps of the token
+   endpoint, and a request parsed before the removal mints nothing ... *)
+Theorem C03_never_honoured_is : forall c s k,
+  never_honoured c s k <->
+  (snd (do_userinfo c s (TRef k)) <> OUserinfo /\
+   (forall cl sc cl' cls, snd (do_introspect c s cl (TRef k)) <> OActive sc cl' cls) /\
+   (forall cl sc, snd (do_refresh_parse c s cl (TRef k) sc) <> OOk) /\
+   (forall cl rd, snd (do_token_parse c s cl (TRef k) rd) <> OOk) /\
+   (forall idx kw cl redir,
+      (nth_error (parsed s) idx = Some (PCode cl k redir) \/ exists sc, nth_error (parsed s) idx = Some (PRefresh cl k sc)) ->
+      forall a r i sc, snd (do_process c s idx kw) <> OTokens a r i sc)).
+Proof. exact never_honoured_unfold. Qed.
+Print Assumptions C03_never_honoured_is.
+Theorem C03_remove_session_final : forall c s gi g ops k t,
+  nth_error (grants s) gi = Some g -> tget k s = Some t -> t_grant t = gi ->
+  never_honoured c (fst (run c (fst (step c s (RemoveGrant gi))) ops)) k.
+Proof. exact remove_grant_final. Qed.
+Print Assumptions C03_remove_session_final.
+(* ... and the removal changes no token at all (flags, counters, expiry, scope of every token are what they were) and
+   no other grant: the status of every token of every other grant, client and user is what it was. *)
+Theorem C03_remove_session_isolation : forall c s gi,
+  toks (fst (step c s (RemoveGrant gi))) = toks s /\ now (fst (step c s (RemoveGrant gi))) = now s /\
+  parsed (fst (step c s (RemoveGrant gi))) = parsed s /\
+  forall gj, gj <> gi -> nth_error (grants (fst (step c s (RemoveGrant gi)))) gj = nth_error (grants s) gj.
+Proof. exact remove_grant_isolation. Qed.
+Print Assumptions C03_remove_session_isolation.
+(* a grant once removed stays removed, through every operation (a later login creates a new grant) *)
+Theorem C03_removed_forever : forall c ops s gi g,
+  nth_error (grants s) gi = Some g -> g_removed g = true ->
+  exists g', nth_error (grants (fst (run c s ops))) gi = Some g' /\ g_removed g' = true /\
+             g_user g' = g_user g /\ g_client g' = g_client g.
+Proof. exact removed_forever. Qed.
+Print Assumptions C03_removed_forever.
+
+(* USER SESSION (logout everywhere: revoke_sub_tree at the user level, through grant gi): every token of every grant
+   of that user, at every client, is revoked or belongs to a grant that is out of the database ... *)
+Theorem C03_cascade_user_session : forall c s gi g k t h,
+  nth_error (grants s) gi = Some g -> tget k s = Some t -> nth_error (grants s) (t_grant t) = Some h -> same_user g h = true ->
+  exists h' t', find_tok k (fst (step c s (RevokeUser gi))) = Some (h', t') /\
+                (t_revoked t' = true \/ g_removed h' = true).
+Proof. exact revoke_user_kills. Qed.
+Print Assumptions C03_cascade_user_session.
+(* ... hence never honoured again, whatever follows ... *)
+Theorem C03_user_session_final : forall c s gi g ops k t h,
+  nth_error (grants s) gi = Some g -> tget k s = Some t -> nth_error (grants s) (t_grant t) = Some h -> same_user g h = true ->
+  never_honoured c (fst (run c (fst (step c s (RevokeUser gi))) ops)) k.
+Proof. exact revoke_user_final. Qed.
+Print Assumptions C03_user_session_final.
+(* ... while every token and every grant of every other user is exactly what it was. *)
+Theorem C03_isolation_user_session : forall c s gi k t h,
+  tget k s = Some t -> nth_error (grants s) (t_grant t) = Some h ->
+  (forall g, nth_error (grants s) gi = Some g -> same_user g h = false) ->
+  tget k (fst (step c s (RevokeUser gi))) = Some t /\
+  nth_error (grants (fst (step c s (RevokeUser gi)))) (t_grant t) = Some h.
+Proof. exact revoke_user_isolation. Qed.
+Print Assumptions C03_isolation_user_session.
+Theorem C03_isolation_client_session_step : forall c s gi k t h,
+  tget k s = Some t -> nth_error (grants s) (t_grant t) = Some h ->
+  (forall g, nth_error (grants s) gi = Some g -> same_branch g h = false) ->
+  tget k (fst (step c s (RevokeClient gi))) = Some t /\
+  nth_error (grants (fst (step c s (RevokeClient gi)))) (t_grant t) = Some h.
+Proof. exact revoke_client_step_isolation. Qed.
+Print Assumptions C03_isolation_client_session_step.
+(* dead or out of the database: refused everywhere, and that state is permanent *)
+Theorem C03_unusable_refused : forall c s k g t, find_tok k s = Some (g, t) -> unusable s g t -> never_honoured c s k.
+Proof. exact unusable_refused. Qed.
+Print Assumptions C03_unusable_refused.
+Theorem C03_unusable_forever : forall c ops s k g t,
+  find_tok k s = Some (g, t) -> unusable s g t ->
+  exists g' t', find_tok k (fst (run c s ops)) = Some (g', t') /\ unusable (fst (run c s ops)) g' t' /\
+                t_grant t' = t_grant t /\ g_user g' = g_user g /\ g_client g' = g_client g.
+Proof. exact unusable_forever. Qed.
+Print Assumptions C03_unusable_forever.
+
 (* non-vacuity: a history with two users and two clients; after revoking grant 0 its access token is dead at
    userinfo and introspection while the token of grant 1 is still honoured. *)
 Definition c1 := PS "client_1".
@@ -105,6 +182,35 @@ Example C03_nonvacuous :
     OOk;
     OInactive; OErr EInvalidToken; OActive [PS "openid"; PS "email"] c2 Access; OUserinfo;
     OErr EInvalidRequest ].
+Proof. vm_compute. reflexivity. Qed.
+
+(* non-vacuity of the removal / user-session theorems: diana logs in twice at client_1 and once at client_2, babs once
+   at client_1; the first session is removed: its tokens raise / are refused everywhere (also the request parsed
+   before the removal), the sibling grant at the same client is served as before; then diana's user session is
+   revoked: the sibling and the client_2 grant are dead at userinfo, introspection and the refresh grant, babs is
+   served as before. *)
+Definition demo2 : list op :=
+  [ Authorize (PS "diana") c1 [PS "openid"; PS "offline_access"]; TokenParse c1 (TRef 0) (Some (redirect_of c1)); Process 0 None;
+    Authorize (PS "diana") c1 [PS "openid"; PS "offline_access"]; TokenParse c1 (TRef 4) (Some (redirect_of c1)); Process 1 None;
+    Authorize (PS "diana") c2 [PS "openid"; PS "offline_access"]; TokenParse c2 (TRef 8) (Some (redirect_of c2)); Process 2 None;
+    Authorize (PS "babs") c1 [PS "openid"; PS "offline_access"]; TokenParse c1 (TRef 12) (Some (redirect_of c1)); Process 3 None;
+    RefreshParse c1 (TRef 2) None;
+    RemoveGrant 0;
+    Userinfo (TRef 1); Introspect c1 (TRef 1); RefreshParse c1 (TRef 2) None; Process 4 None; RevokeEP c1 (TRef 1);
+    Userinfo (TRef 5); Introspect c1 (TRef 6); Userinfo (TRef 9); Userinfo (TRef 13);
+    RevokeUser 0;
+    Userinfo (TRef 5); Introspect c1 (TRef 5); Introspect c1 (TRef 6); RefreshParse c1 (TRef 6) None;
+    Userinfo (TRef 9); Introspect c2 (TRef 10); RefreshParse c2 (TRef 10) None;
+    Userinfo (TRef 13); Introspect c1 (TRef 14); RefreshParse c1 (TRef 14) None ].
+Example C03_nonvacuous_remove_logout :
+  List.skipn 13 (snd (run (mk_cfg true false) init demo2)) =
+  [ OOk;
+    OErr EInvalidToken; OExc; OExc; OExc; OExc;
+    OUserinfo; OActive [PS "openid"; PS "offline_access"] c1 Refresh; OUserinfo; OUserinfo;
+    OOk;
+    OErr EInvalidToken; OInactive; OInactive; OErr EInvalidRequest;
+    OErr EInvalidToken; OInactive; OErr EInvalidRequest;
+    OUserinfo; OActive [PS "openid"; PS "offline_access"] c1 Refresh; OOk ].
 Proof. vm_compute. reflexivity. Qed.
 
 (* TIE BY TRANSLATION: Item.is_active / max_usage_reached / supports_minting as they read in /repo/src NOW
